@@ -24,7 +24,7 @@
 #include "c05_common.h"
 
 enum { U_Y = 1, U_Q = 2, U_MO = 4, U_W = 8, U_D = 16, U_B = 32, U_H = 64, U_MI = 128, U_S = 256 };
-enum { P_UNITS, P_YMD, P_YMCW, P_YWD, P_YD, P_BIZDA };
+enum { P_UNITS, P_YMD, P_YMCW, P_YWD, P_YD, P_BIZDA, P_BIZSIT };
 
 struct fmt_s {
 	const char *fmt;	/* NULL: no -f */
@@ -91,6 +91,9 @@ static const struct fmt_s tfmts[] = {
 	{"%dd", "%dd", P_UNITS, U_D},
 	{"%ww %dd", "%ww %dd", P_UNITS, U_W | U_D},
 	{"%db %Hh %Mm %Ss", "%db %Hh %Mm %Ss", P_UNITS, U_B | U_H | U_MI | U_S},
+	{"%db %Hh", "%db %Hh", P_UNITS, U_B | U_H},
+	{"%db", "%db", P_UNITS, U_B},
+	{"bizsi", "bizsi", P_BIZSIT, U_B | U_H | U_MI | U_S},
 };
 #define NTFMT	((int)(sizeof(tfmts) / sizeof(*tfmts)))
 static const int tcals[] = {CAL_YMD, CAL_YWD, CAL_YMCW};	/* yd has no date-time text the parser takes */
@@ -183,6 +186,12 @@ to_units(int pmode, const char *body, char *out, size_t osz)
 		}
 		snprintf(out, osz, "%dy %dd", a, b);
 		return 0;
+	case P_BIZSIT:
+		if (sscanf(body, "%dbT%d:%d:%d%c", &a, &b, &c, &d, &x) != 4) {
+			return -1;
+		}
+		snprintf(out, osz, "%db %dh %dm %ds", a, b, c, d);
+		return 0;
 	case P_BIZDA:
 		if (sscanf(body, "%d-%d-%d%c", &a, &b, &c, &x) != 4 || x != 'b') {
 			return -1;
@@ -208,7 +217,6 @@ static const char *const SK_DOM = "skipped:month/year format and the earlier day
 static const char *const SK_BD = "skipped:business-day format and an operand is a weekend day (no business-day name)";
 static const char *const SK_FIN = "skipped:format lacks the finest unit needed for this pair";
 static const char *const SK_W53 = "skipped:years+weeks format and the earlier day lies in ISO week 53 (a week that does not exist in every year: the analogue of day-of-month > 28)";
-static const char *const SK_BT = "skipped:business days with a time-of-day borrow (no fixed-length reading)";
 
 static void
 count_skip(const char *why)
@@ -230,7 +238,7 @@ count_skip(const char *why)
 }
 
 static const char*
-outside(const struct fmt_s *f, const struct val_s *e, const struct val_s *l)
+outside(const struct fmt_s *f, const struct val_s *e, const struct val_s *l, int dt)
 {
 	const struct rc_day *pe = rc_get(e->rd), *pl = rc_get(l->rd);
 	unsigned int u = f->units;
@@ -244,17 +252,12 @@ outside(const struct fmt_s *f, const struct val_s *e, const struct val_s *l)
 	if ((u & (U_Y | U_W | U_MO | U_Q)) == (U_Y | U_W) && pe->isow == 53) {
 		return SK_W53;
 	}
-	if (e->sec >= 0) {
+	if (dt == 1) {
 		/* date-times: fixed units, the finest one must divide the distance */
 		long long ds = (long long)(l->rd - e->rd) * 86400LL + (l->sec - e->sec);
 		long long fin = (u & U_S) ? 1 : (u & U_MI) ? 60 : (u & U_H) ? 3600 : (u & (U_D | U_B)) ? 86400 : 604800;
 		if (ds % fin) {
 			return SK_FIN;
-		}
-		if ((u & U_B) && (l->sec < e->sec)) {
-			/* reading: business days count whole days; a pair whose time-of-day difference
-			 * runs against the day difference has no fixed-length reading in business days */
-			return SK_BT;
 		}
 		return NULL;
 	}
@@ -287,7 +290,7 @@ static int replay_mode;
  *          these calendars have no notion of months (no-op): outside, counted;
  * CC_YWDB: business days applied to a ywd operand: unimplemented in dadd, C07's finding. */
 enum { CC_IN, CC_XCAL, CC_NOMON, CC_YWDB };
-static int combo_d[64][NCAL], combo_t[64][NCAL];
+static int combo_d[64][NCALX], combo_t[64][NCALX];
 
 static int
 combo_class(const struct fmt_s *f, durfmt_t df, int cal, int dt)
@@ -321,7 +324,7 @@ combo_class(const struct fmt_s *f, durfmt_t df, int cal, int dt)
 /* fast path for classes with millions of cases: once a class exists and this case
  * is not smaller than its example, only count */
 enum { VK_INV, VK_XCAL, VK_PARSE, VK_SIGN, VK_UNDEF, NVK };
-static struct ex_viol_s *vslot[NVK][2][64][NCAL][2][6];
+static struct ex_viol_s *vslot[NVK][3][64][NCALX][2][6];
 
 static inline int
 viol_fast(struct ex_viol_s **slot, double ord)
@@ -357,7 +360,7 @@ judge(const struct fmt_s *f, int fi, int cal, int dt, int cc, const struct val_s
 	char key[160], cas[96], cmd[320], fa[64], ubuf[128], got[64];
 	const char *units;
 	struct dt_dt_s res;
-	double ord = (double)(l->rd - e->rd) + (dt ? (double)(l->sec - e->sec) / 86400.0 : 0.0);
+	double ord = (double)(l->rd - e->rd) + (dt == 1 ? (double)(l->sec - e->sec) / 86400.0 : 0.0);
 	int neg, bad = 0;
 	const char *sg = expect_neg ? "-" : "+";
 	struct ex_viol_s **slot;
@@ -437,7 +440,9 @@ judge(const struct fmt_s *f, int fi, int cal, int dt, int cc, const struct val_s
 		return bad + 1;
 	}
 	dadd_print(got, sizeof(got), res);
-	if (strcmp(got, l->canon)) {
+	/* a date-only operand against a date-time: the duration is in whole days between the
+	 * two calendar dates (ddiff's type table: D - DT = d), so only the date must be hit */
+	if (dt == 2 ? strncmp(got, l->canon, 10) || (got[10] && got[10] != 'T') : strcmp(got, l->canon)) {
 		long off = val_rd(res) - l->rd;
 		int oi = dt_unk_p(res) ? 5 : off == 0 ? 0 : off == 1 ? 1 : off == -1 ? 2 : off > 1 ? 3 : 4;
 		static const char *const ob[6] = {"0", "+1", "-1", ">+1", "<-1", "invalid"};
@@ -470,6 +475,50 @@ judge(const struct fmt_s *f, int fi, int cal, int dt, int cc, const struct val_s
 #undef MKCAS
 }
 
+/* sign rule alone (business-day formats with a weekend operand): '-' iff the second operand is earlier,
+ * not judged when every printed number is 0 */
+static int
+sign_only(const struct fmt_s *f, durfmt_t df, int fi, int cal, int dt, const struct val_s *e, const struct val_s *l)
+{
+	int bad = 0;
+	EX_CTR(c_eval, "evaluations");
+	EX_CTR(c_trans, "transitions");
+
+	if (e->rd == l->rd && (dt != 1 || e->sec == l->sec)) {
+		return 0;
+	}
+	for (int dir = 0; dir < 2; dir++) {
+		const struct val_s *A = dir ? l : e, *B = dir ? e : l;
+		char t[128], key[160], cas[96], cmd[256], fa[64];
+		int n = ddiff_pipe(t, sizeof(t), f->fmt, df, A->v, B->v), nz = 0;
+		struct ex_viol_s **slot = &vslot[VK_SIGN][dt][fi][cal][dir][0];
+		double ord = (double)(l->rd - e->rd) + (dt == 1 ? (double)(l->sec - e->sec) / 86400.0 : 0.0);
+		++*c_eval;
+		++*c_trans;
+		for (const char *q = t; n > 0 && *q; q++) {
+			nz |= *q >= '1' && *q <= '9';
+		}
+		if (n < 0 || !nz || (t[0] == '-') == dir) {
+			continue;
+		}
+		bad++;
+		if (viol_fast(slot, ord) && !replay_mode) {
+			continue;
+		}
+		snprintf(cas, sizeof(cas), "pair %d %d %d %d %d %d %d", dt, fi, cal, A->rd, A->sec, B->rd, B->sec);
+		snprintf(key, sizeof(key), "sign fmt=%s cal=%s sign=%s", f->name, cal_name[cal], dir ? "-" : "+");
+		snprintf(cmd, sizeof(cmd), "ddiff %s %s%s", A->text, B->text, fmt_arg(f, fa, sizeof(fa)));
+		ex_viol(key, ord, cas, cmd, "ddiff %s %s%s printed '%s': the second operand is %s the first, so the sign must be '%s'",
+			A->text, B->text, fmt_arg(f, fa, sizeof(fa)), t, dir ? "earlier than" : "not earlier than", dir ? "-" : "none");
+		viol_bind(slot, key);
+		if (replay_mode) {
+			printf("  sign: ddiff %s %s%s printed '%s', expected %s leading minus\n", A->text, B->text,
+			       fmt_arg(f, fa, sizeof(fa)), t, dir ? "a" : "no");
+		}
+	}
+	return bad;
+}
+
 /* the unordered pair {e <= l}: both directions through ddiff */
 static int
 do_pair(const struct fmt_s *f, durfmt_t df, int fi, int cal, int dt, const struct val_s *e, const struct val_s *l)
@@ -477,13 +526,19 @@ do_pair(const struct fmt_s *f, durfmt_t df, int fi, int cal, int dt, const struc
 	char t1[128], t2[128], key[160], cas[96], cmd[256], fa[64];
 	const char *why;
 	int n1, n2, bad = 0;
-	int cc = dt ? combo_t[fi][cal] : combo_d[fi][cal];
+	int cc = dt == 1 ? combo_t[fi][cal] : combo_d[fi][cal];
 	EX_CTR(c_eval, "evaluations");
 	EX_CTR(c_trans, "transitions");
 	EX_CTR(c_nontriv, "nontrivial");
 	EX_CTR(c_nomon, "skipped:months applied to a ywd/yd operand (dt_dadd_m: these calendars have no notion of months)");
 	EX_CTR(c_ywdb, "skipped:business days applied to a ywd operand (unimplemented in dadd: C07's finding, not judged here)");
 
+	if (cal >= CAL_EPOCH && (e->rd >= 910674 || l->rd >= 910674)) {
+		/* the tools print an epoch value of a day beyond 4094-05-04 as 0000-00-00 (day count > 910674: C01's finding) */
+		EX_CTR(c_unpr, "skipped:epoch-held operand beyond the range the tools can print (0000-00-00 after 4094-05-04: C01's finding)");
+		++*c_unpr;
+		return 0;
+	}
 	if (cc == CC_NOMON) {
 		++*c_nomon;
 		return 0;
@@ -491,8 +546,12 @@ do_pair(const struct fmt_s *f, durfmt_t df, int fi, int cal, int dt, const struc
 		++*c_ywdb;
 		return 0;
 	}
-	if ((why = outside(f, e, l)) != NULL) {
+	if ((why = outside(f, e, l, dt)) != NULL) {
 		count_skip(why);
+		if (why == SK_BD) {
+			/* the inverse is not claimed from or to a weekend day, the sign is */
+			return sign_only(f, df, fi, cal, dt, e, l);
+		}
 		return 0;
 	}
 	n1 = ddiff_pipe(t1, sizeof(t1), f->fmt, df, e->v, l->v);
@@ -501,12 +560,12 @@ do_pair(const struct fmt_s *f, durfmt_t df, int fi, int cal, int dt, const struc
 	ex_outcome(ex_hash_mix(ex_hash(t1, (size_t)(n1 > 0 ? n1 : 0)), (uint64_t)(fi * 8 + cal + 1000 * dt)));
 	{
 		const struct rc_day *pe = rc_get(e->rd), *pl = rc_get(l->rd);
-		if (pl->d < pe->d || pl->yday < pe->yday || pl->wd < pe->wd || (dt && l->sec < e->sec)) {
+		if (pl->d < pe->d || pl->yday < pe->yday || pl->wd < pe->wd || (dt == 1 && l->sec < e->sec)) {
 			++*c_nontriv;
 		}
 	}
 	bad += judge(f, fi, cal, dt, cc, e, l, e, l, n1, t1, 0);
-	if (e->rd == l->rd && e->sec == l->sec) {
+	if (e->rd == l->rd && (dt == 2 || e->sec == l->sec)) {
 		return bad;
 	}
 	n2 = ddiff_pipe(t2, sizeof(t2), f->fmt, df, l->v, e->v);
@@ -524,7 +583,7 @@ do_pair(const struct fmt_s *f, durfmt_t df, int fi, int cal, int dt, const struc
 	snprintf(cas, sizeof(cas), "pair %d %d %d %d %d %d %d", dt, fi, cal, e->rd, e->sec, l->rd, l->sec);
 	snprintf(cmd, sizeof(cmd), "ddiff %s %s%s; ddiff %s %s%s", e->text, l->text, fmt_arg(f, fa, sizeof(fa)),
 		 l->text, e->text, fmt_arg(f, fa, sizeof(fa)));
-	ex_viol(key, (double)(l->rd - e->rd) + (dt ? (double)(l->sec - e->sec) / 86400.0 : 0.0), cas, cmd,
+	ex_viol(key, (double)(l->rd - e->rd) + (dt == 1 ? (double)(l->sec - e->sec) / 86400.0 : 0.0), cas, cmd,
 		"ddiff %s %s%s printed '%s' but with the operands swapped '%s' (must be the same with the sign flipped)",
 		e->text, l->text, fmt_arg(f, fa, sizeof(fa)), t1, t2);
 	if (replay_mode) {
@@ -628,7 +687,7 @@ do_binding(int fi, int cal, int ai, int slot)
 			if (line) {
 				line = strtok_r(NULL, "\n", &save);
 			}
-			if (outside(f, e, l) || to_units(f->pmode, t + (t[0] == '-'), units, sizeof(units)) < 0 ||
+			if (outside(f, e, l, 0) || to_units(f->pmode, t + (t[0] == '-'), units, sizeof(units)) < 0 ||
 			    dadd_apply(e->v, units, &res) < 0) {
 				continue;
 			}
@@ -711,6 +770,28 @@ tdays(int *rd)
 	return n;
 }
 
+/* operand representations behind a calendar key: (calendar of the text, date-only?) of the earlier and the later operand */
+static void
+key_reps(int cal, int dt, int *ce, int *de, int *cl, int *dl)
+{
+	*ce = *cl = cal < NCAL ? cal : CAL_YMD;
+	*de = *dl = dt == 0;
+	switch (cal) {
+	case CAL_EPOCH: *ce = *cl = CAL_EPOCH; break;
+	case CAL_EP_YMD: *ce = CAL_EPOCH; break;
+	case CAL_YMD_EP: *cl = CAL_EPOCH; break;
+	case CAL_DATE_YMD: *de = 1, *dl = 0; break;
+	case CAL_YMD_DATE: *de = 0, *dl = 1; break;
+	case CAL_DATE_EP: *de = 1, *dl = 0, *cl = CAL_EPOCH; break;
+	case CAL_EP_DATE: *de = 0, *dl = 1, *ce = CAL_EPOCH; break;
+	default: break;
+	}
+}
+
+/* fixed-unit date formats used for unlike operands (date-only against date-time) */
+static const int mixfmt[] = {0, 1, 2, 3, 4, 6, 7};
+#define NMIXFMT	((int)(sizeof(mixfmt) / sizeof(*mixfmt)))
+
 int
 main(int argc, char *argv[])
 {
@@ -741,7 +822,7 @@ main(int argc, char *argv[])
 		replay_mode = 1;
 		if (!strncmp(ex.cas, "bind ", 5)) {
 			int ai, idx;
-			if (sscanf(ex.cas + 5, "%d %d %d %d", &fi, &cal, &ai, &idx) != 4 || fi < 0 || fi >= NDFMT || cal < 0 || cal >= NCAL ||
+			if (sscanf(ex.cas + 5, "%d %d %d %d", &fi, &cal, &ai, &idx) != 4 || fi < 0 || fi >= NDFMT || cal < 0 || cal > CAL_EPOCH ||
 			    ai < 0 || ai >= NANCHOR) {
 				return ex_replay_result(1, "bad case '%s'", ex.cas);
 			}
@@ -770,7 +851,7 @@ main(int argc, char *argv[])
 				}
 				printf("  ddiff binary '%s', included pipeline '%s'\n", l1, t);
 				bad = strcmp(l1, t) != 0;
-				if (!outside(dfmts + fi, e, l) && to_units(dfmts[fi].pmode, t + (t[0] == '-'), units, sizeof(units)) == 0 &&
+				if (!outside(dfmts + fi, e, l, 0) && to_units(dfmts[fi].pmode, t + (t[0] == '-'), units, sizeof(units)) == 0 &&
 				    dadd_apply(e->v, units, &res) == 0) {
 					dadd_print(got, sizeof(got), res);
 					snprintf(cmd, sizeof(cmd), "'%s/src/dadd' '%s' %s 2>&1", ex.tree, e->text, units);
@@ -786,18 +867,26 @@ main(int argc, char *argv[])
 				return ex_replay_result(bad, "binding fmt=%s cal=%s %s %s", dfmts[fi].name, cal_name[cal], A.text, B.text);
 			}
 		}
-		if (sscanf(ex.cas, "pair %d %d %d %d %d %d %d", &dt, &fi, &cal, &ra, &sa, &rb, &sb) != 7 || cal < 0 || cal >= NCAL ||
-		    fi < 0 || fi >= (dt ? NTFMT : NDFMT) || ra < 0 || rb < 0 || ra >= RC_NDAYS || rb >= RC_NDAYS) {
+		if (sscanf(ex.cas, "pair %d %d %d %d %d %d %d", &dt, &fi, &cal, &ra, &sa, &rb, &sb) != 7 || cal < 0 || cal >= NCALX ||
+		    dt < 0 || dt > 2 || fi < 0 || fi >= (dt == 1 ? NTFMT : NDFMT) || ra < 0 || rb < 0 || ra >= RC_NDAYS || rb >= RC_NDAYS) {
 			return ex_replay_result(1, "bad case '%s'", ex.cas);
 		}
-		prep_val(&A, cal, ra, sa);
-		prep_val(&B, cal, rb, sb);
-		if (ra < rb || (ra == rb && sa <= sb)) {
-			bad = do_pair(dt ? tfmts + fi : dfmts + fi, dt ? tfmt_of[fi] : dfmt_of[fi], fi, cal, dt, &A, &B);
-		} else {
-			bad = do_pair(dt ? tfmts + fi : dfmts + fi, dt ? tfmt_of[fi] : dfmt_of[fi], fi, cal, dt, &B, &A);
+		{
+			/* A is the earlier one of the two */
+			int a_first = dt == 2 ? (ra < rb || (ra == rb && sa < 0)) : (ra < rb || (ra == rb && sa <= sb));
+			int ce, de, cl, dl;
+			key_reps(cal, dt, &ce, &de, &cl, &dl);
+			if (a_first) {
+				prep_val(&A, ce, ra, de ? -1 : (sa < 0 ? 0 : sa));
+				prep_val(&B, cl, rb, dl ? -1 : (sb < 0 ? 0 : sb));
+			} else {
+				prep_val(&B, ce, rb, de ? -1 : (sb < 0 ? 0 : sb));
+				prep_val(&A, cl, ra, dl ? -1 : (sa < 0 ? 0 : sa));
+			}
+			bad = do_pair(dt == 1 ? tfmts + fi : dfmts + fi, dt == 1 ? tfmt_of[fi] : dfmt_of[fi], fi, cal, dt,
+				      a_first ? &A : &B, a_first ? &B : &A);
 		}
-		return ex_replay_result(bad != 0, "fmt=%s cal=%s %s %s", dt ? tfmts[fi].name : dfmts[fi].name, cal_name[cal], A.text, B.text);
+		return ex_replay_result(bad != 0, "fmt=%s cal=%s %s %s", dt == 1 ? tfmts[fi].name : dfmts[fi].name, cal_name[cal], A.text, B.text);
 	}
 
 	nwin = ex.thorough ? 4 : 1;
@@ -815,11 +904,13 @@ main(int argc, char *argv[])
 		"formats (ymd ymcw ywd yd bizda) are read positionally. Readings: month/year formats only for dates with earlier day-of-month <= 28; "
 		"business-day formats only when both operands are Monday..Friday; a format without days (weeks only, months only, years only, or a "
 		"date-time format whose finest unit does not divide the distance) only for pairs where nothing finer is needed; time-only operands "
-		"and %%rS (C14) are not enumerated. non-trivial = the later day has a smaller day-of-month, day-of-year, weekday or time of day "
+		"and %%rS (C14) are not enumerated; a date-only operand against a date-time: the duration counts whole days between the two calendar dates "
+		"(ddiff's type table D - DT = d), only the date must be hit; business-day formats with a weekend operand: only the sign is judged. non-trivial = the later day has a smaller day-of-month, day-of-year, weekday or time of day "
 		"than the earlier one (a borrow in the difference)");
 	ex_meta("bound", "(i) all pairs inside %d window(s) of %d years (%s) x %d date formats x 4 input calendars (ymd ywd yd ymcw), both directions; "
 		"(ii) every day 1601-01-01..4095-12-31 x partner at distance 1..%d x %d (calendar, format) combinations; "
-		"(iii) %s boundary days x 7 times of day, all pairs x %d date-time formats x 3 calendars; "
+		"(iii) %s boundary days x 7 times of day, all pairs x %d date-time formats x 3 calendars, and the same instants epoch-held (@N): both operands, and either one against the civil date-time; "
+		"(v) each of these days as a date-only operand against every one of the date-times (civil and epoch-held) x 7 whole-day formats; "
 		"(iv) binding: %d anchor days x distance -%d..%d x %d formats (ymd) + 6 formats in the other calendars through the ddiff and dadd binaries",
 		nwin, WIN_YEARS, ex.thorough ? "1997-2004, 1897-1904, 1601-1608, 4088-4095" : "1998-2001", NDFMT, K, NLONG,
 		"40", NTFMT, ex.thorough ? NANCHOR : 6, BIND_K, BIND_K, NDFMT);
@@ -894,7 +985,7 @@ main(int argc, char *argv[])
 	/* (iii) date-times */
 	{
 		int rd[64], nd = tdays(rd), ni = nd * 7;
-		struct val_s *iv[NTCAL] = {NULL, NULL, NULL};
+		struct val_s *iv[NTCAL] = {NULL, NULL, NULL}, *ive = NULL;
 		for (int i = 0; i < ni && !ex_expired(); i++, slice++) {
 			if (!ex_mine((uint64_t)slice)) {
 				continue;
@@ -915,9 +1006,42 @@ main(int argc, char *argv[])
 					}
 				}
 			}
+			/* the same instants held as epoch values (@N): both, and either one against the civil date-time */
+			if (ive == NULL) {
+				ive = calloc((size_t)ni, sizeof(*ive));
+				for (int k = 0; k < ni; k++) {
+					prep_val(ive + k, CAL_EPOCH, rd[k / 7], T7[k % 7]);
+				}
+			}
+			for (int j = i; j < ni; j++) {
+				for (int fi = 0; fi < NTFMT; fi++) {
+					do_pair(tfmts + fi, tfmt_of[fi], fi, CAL_EPOCH, 1, ive + i, ive + j);
+					do_pair(tfmts + fi, tfmt_of[fi], fi, CAL_EP_YMD, 1, ive + i, iv[0] + j);
+					if (j > i) {
+						do_pair(tfmts + fi, tfmt_of[fi], fi, CAL_YMD_EP, 1, iv[0] + i, ive + j);
+					}
+				}
+			}
+			/* (v) a date-only operand against date-times (civil and epoch-held), whole-day formats */
+			if (i % 7 == 0) {
+				struct val_s D;
+				prep_val(&D, CAL_YMD, rd[i / 7], -1);
+				for (int j = 0; j < ni; j++) {
+					for (int k = 0; k < NMIXFMT; k++) {
+						int fi = mixfmt[k];
+						if (D.rd <= iv[0][j].rd) {
+							do_pair(dfmts + fi, dfmt_of[fi], fi, CAL_DATE_YMD, 2, &D, iv[0] + j);
+							do_pair(dfmts + fi, dfmt_of[fi], fi, CAL_DATE_EP, 2, &D, ive + j);
+						} else {
+							do_pair(dfmts + fi, dfmt_of[fi], fi, CAL_YMD_DATE, 2, iv[0] + j, &D);
+							do_pair(dfmts + fi, dfmt_of[fi], fi, CAL_EP_DATE, 2, ive + j, &D);
+						}
+					}
+				}
+			}
 			++*c_traces;
 			if (ex_want_sample()) {
-				ex_sample("date-time %s with every later instant of the %d x %d formats x 3 calendars, both directions", iv[0][i].text, ni, NTFMT);
+				ex_sample("date-time %s with every later instant of the %d x %d formats x 3 calendars + epoch-held (@N) + mixed, both directions", iv[0][i].text, ni, NTFMT);
 			}
 		}
 	}
@@ -925,9 +1049,10 @@ main(int argc, char *argv[])
 	{
 		static const struct { int cal; int fi; } xb[] = {
 			{CAL_YWD, 18}, {CAL_YWD, 4}, {CAL_YD, 17}, {CAL_YD, 1}, {CAL_YMCW, 15}, {CAL_YMCW, 9},
+			{CAL_EPOCH, 1}, {CAL_EPOCH, 6}, {CAL_EPOCH, 0},
 		};
 		int na = ex.thorough ? NANCHOR : 6;
-		for (int fi = 0; fi < NDFMT + 6 && !ex_expired(); fi++) {
+		for (int fi = 0; fi < NDFMT + 9 && !ex_expired(); fi++) {
 			for (int ai = 0; ai < na; ai++, slice++) {
 				if (!ex_mine((uint64_t)slice)) {
 					continue;
